@@ -142,8 +142,50 @@ func readSummaryOf(p *core.Program, f *ssa.Function, stack map[*ssa.Function]boo
 	return s
 }
 
+// entity-key families: a reader that consults a per-entity key built by one of
+// these functions covers the table only if EVERY write site of the table bumps
+// a key built by the same function (verified below, not assumed).
+var entityKeyFamilies = map[string][]string{
+	"services": {"nodeIndexName"},
+}
+
+// tables whose rows are themselves the index source of their dedicated reader.
+var selfIndexedTables = map[string]string{
+	"tombstones": "the graveyard reader returns the largest tombstone index; the tombstone rows are the index source (expiry is the property's stated exception)",
+}
+
 func checkReaderTableCoverage(c *Ctx) {
 	p, r := c.P, c.R
+	// verify the entity-key families against the write sites
+	sites, _ := stateWriteSites(p)
+	familyOK := map[string]map[string]bool{}
+	for table, fns := range entityKeyFamilies {
+		familyOK[table] = map[string]bool{}
+		for _, fn := range fns {
+			ok, nSites := true, 0
+			for _, s := range sites {
+				if s.op.Table != table || isRestoreMethod(s.fn) {
+					continue
+				}
+				nSites++
+				keys, _ := bumpsAfter(p, s.op.Instr, bulkDeleteCut(s.op), 6)
+				has := false
+				for _, k := range keys.Keys() {
+					if strings.HasPrefix(k, fn+"(") {
+						has = true
+					}
+				}
+				if !has {
+					ok = false
+					r.Violate("C06.R", "family/"+table+"/"+fn+"/"+core.FuncName(s.fn), p.Pos(s.op.Instr.Pos()), fmt.Sprintf("a write to %s does not bump a %s key on every path: readers that rely on that per-entity key (NodeServices) would miss this change", table, fn))
+				}
+			}
+			if ok && nSites > 0 {
+				familyOK[table][fn] = true
+				r.Hold("C06.R", "family/"+table+"/"+fn, "", fmt.Sprintf("all %d write sites of %s bump a %s key", nSites, table, fn))
+			}
+		}
+	}
 	var survey []string
 	n := 0
 	for _, f := range p.SrcFuncs(statePkg) {
@@ -165,12 +207,15 @@ func checkReaderTableCoverage(c *Ctx) {
 			continue
 		}
 		s := readSummaryOf(p, f, map[*ssa.Function]bool{})
+		name := core.FuncName(f)
+		n++
 		var missing []string
 		for _, t := range s.tables.Keys() {
 			if t == indexTableName {
 				continue
 			}
 			covered := s.consts[t]
+			why := "an index key naming the table is consulted"
 			for _, k := range extraFamily[t] {
 				if s.consts[k] {
 					covered = true
@@ -181,26 +226,36 @@ func checkReaderTableCoverage(c *Ctx) {
 					covered = true
 				}
 			}
-			if _, ok := rowIndexTables[t]; ok {
-				covered = true
-			}
-			if _, ok := internalTables[t]; ok {
-				covered = true
-			}
 			for k := range s.consts {
 				if strings.HasPrefix(k, t+".") {
 					covered = true // a key derived from the table's name
 				}
 			}
-			if !covered {
-				missing = append(missing, t+" (via "+s.via[t]+")")
+			for fn := range familyOK[t] {
+				if s.keyFns[fn] {
+					covered, why = true, "the per-entity key "+fn+" is consulted and every write of the table bumps it"
+				}
+			}
+			if w, ok := rowIndexTables[t]; ok {
+				covered, why = true, w
+			}
+			if w, ok := internalTables[t]; ok {
+				covered, why = true, w
+			}
+			if w, ok := selfIndexedTables[t]; ok {
+				covered, why = true, w
+			}
+			construct := name + "/" + t
+			if covered {
+				r.Hold("C06.R", construct, p.FuncPos(f), why)
+			} else {
+				missing = append(missing, t)
+				r.Violate("C06.R", construct, p.FuncPos(f), fmt.Sprintf("the query reads table %s (via %s) but none of the index keys it consults names that table (keys mention: %s): a write to %s that changes this query's result leaves the reported index where it was, so a blocked client is woken by its watch (or not at all) and goes back to sleep", t, s.via[t], strings.Join(s.consts.Keys(), ", "), t))
 			}
 		}
 		sort.Strings(missing)
-		n++
-		name := core.FuncName(f)
 		survey = append(survey, fmt.Sprintf("%s: reads %v; index keys mention %v; uncovered %v", name, s.tables.Keys(), s.consts.Keys(), missing))
-		_ = r
 	}
 	r.Analysed["reader_table_coverage"] = survey
+	r.Floor("C06.R", 150)
 }
